@@ -130,8 +130,8 @@ def bundler_lookups(rm: REModel):
                 if sl and sl[1] == "self._run_bundlers":
                     found = ("sentinel", s, sl)
                     break
-                t = A.norm(s.test)
-                if "self._run_bundlers" in t and (" not in " in t or " in " in t):
+                if any(isinstance(n, ast.Compare) and len(n.ops) == 1 and isinstance(n.ops[0], (ast.In, ast.NotIn)) and A.chain(n.comparators[0]) == "self._run_bundlers"
+                       for n in A.walk_local(s.test)):
                     found = ("membership", s, None)
                     break
         keyed_subscript = any(isinstance(n, ast.Subscript) and A.chain(n.value) == "self._run_bundlers"
@@ -146,8 +146,8 @@ def d3_guards(ctx, rm: REModel):
         iter_all = any(isinstance(s, (ast.For, ast.AsyncFor)) and "self._run_bundlers" in A.norm(s.iter)
                        for s in A.walk_stmts(h.node.body))
         if found is None:
-            if iter_all and not keyed_subscript:
-                continue  # broadcast handlers (checkpoint, ...) are C14's subject
+            if not keyed_subscript:
+                continue  # no lookup by run key at all: broadcast handlers (checkpoint, ...) are C14's subject
             ctx.ob("C01.D3-missing-run-guard", cname(h, None, f"handler of {cmd!r}"), False,
                    "the handler indexes self._run_bundlers without a recognisable missing-key guard", where=where(h, h.node))
             n += 1
